@@ -1,7 +1,7 @@
 import functools
 import operator
 
-from dask_expr._util import _convert_to_list
+from dask_expr._util import _convert_to_list, _tokenize_deterministic
 from dask_expr.io.io import BlockwiseIO, PartitionsFiltered
 
 
@@ -26,6 +26,29 @@ class ReadCSV(PartitionsFiltered, BlockwiseIO):
         "_series": False,
     }
     _absorb_projections = True
+
+    @functools.cached_property
+    def _name(self):
+        return (
+            self._funcname
+            + "-"
+            + _tokenize_deterministic(self._files_checksum, *self.operands)
+        )
+
+    @functools.cached_property
+    def _files_checksum(self):
+        # State (path, size, modification time) of the files.  The legacy reader
+        # names its tasks after it as well; without it a rewritten dataset would
+        # be read through a stale, still alive expression of the same name.
+        from fsspec.core import get_fs_token_paths
+
+        try:
+            fs, _, paths = get_fs_token_paths(
+                self.filename, mode="rb", storage_options=self.storage_options
+            )
+            return [fs.ukey(path) for path in paths]
+        except Exception:
+            return None
 
     @functools.cached_property
     def operation(self):
